@@ -386,7 +386,8 @@ def generate(seed, tier):
     cases = []
     # 1. exhaustive histories over 2 pre-created nodes (length 3) and 3 nodes (length 2); thorough: length 4 / 3
     if tier == "thorough":
-        c, _ = exhaustive_cases(4, 2, "ex2_"); cases += c
+        c, _ = exhaustive_cases(4, 2, "ex2_", alphabet_extra=False); cases += c
+        c, _ = exhaustive_cases(3, 2, "ex2x_"); cases += c
         c, _ = exhaustive_cases(3, 3, "ex3_"); cases += c
     else:
         c, _ = exhaustive_cases(3, 2, "ex2_", alphabet_extra=False); cases += c
